@@ -7,6 +7,7 @@
 -/
 import OQuPyVerif.Generated.StepCount
 import OQuPyVerif.Lemmas.TimeGrid
+import OQuPyVerif.Lemmas.FloatGrid
 import OQuPyVerif.Props.C13Rows.Q0
 import OQuPyVerif.Props.C13Rows.Q1
 import OQuPyVerif.Props.C13Rows.Q2
@@ -51,6 +52,50 @@ theorem num_step_mft (s dt e : Rat) (k : Int) :
     mft_num_step s dt k e = max 0 (get_number_of_steps s e dt - k) := rfl
 /-- "a process tensor built for the same interval has length n" -/
 theorem pt_length (s dt e : Rat) : pt_num_steps s dt e = get_number_of_steps s e dt := rfl
+
+/-- Unbounded grid theorem, for ANY rounding function with relative error `≤ u ≤ 2⁻³²`
+    (binary64 has `u = 2⁻⁵³`: `FloatGrid.rnd_err`): if the requested end is the grid point
+    `s + m·dt` up to `η·dt` with `η ≤ 2⁻³²` — which covers an end time written as a decimal
+    literal or computed as `s + m*dt` whenever `(|s|/dt + m)·2⁻⁵² ≤ 2⁻³²` — the step count is
+    exactly `m`, for every `m ≤ 2²⁰`.  Proved in Lemmas/FloatGrid.lean on the abstract algorithm
+    `stepsAlg`; `steps_abstract_eq` shows the generated code *is* that algorithm. -/
+theorem grid_general (rnd' : Rat → Rat) (u : Rat) (hu0 : 0 ≤ u) (hu : u ≤ 1 / 2 ^ 32)
+    (hr : ∀ x, |rnd' x - x| ≤ u * |x|) (s e dt : Rat) (m : Nat) (hdt : 0 < dt)
+    (hm : (m : Rat) ≤ 2 ^ 20) (η : Rat) (hη : η ≤ 1 / 2 ^ 32)
+    (hclose : |e - (s + m * dt)| ≤ η * dt) : OQuPyVerif.FloatGrid.stepsAlg rnd' s e dt = m :=
+  OQuPyVerif.FloatGrid.steps_on_grid rnd' u hu0 hu hr s e dt m hdt hm η hη hclose
+
+/-- the generated helper is the abstract algorithm instantiated with the binary64 model -/
+theorem steps_abstract_eq (s e dt : Rat) :
+    get_number_of_steps s e dt = OQuPyVerif.FloatGrid.stepsAlg rnd s e dt :=
+  OQuPyVerif.FloatGrid.steps_abstract_eq s e dt
+
+/-- … instantiated: the code's count, in the binary64 model, for every start, dt > 0, m ≤ 2²⁰. -/
+theorem grid_general_binary64 (s e dt : Rat) (m : Nat) (hdt : 0 < dt)
+    (hm : (m : Rat) ≤ 2 ^ 20) (η : Rat) (hη : η ≤ 1 / 2 ^ 32)
+    (hclose : |e - (s + m * dt)| ≤ η * dt) :
+    tempo_num_step s dt 0 e = m ∧ mft_num_step s dt 0 e = m ∧ pt_num_steps s dt e = m := by
+  have h := OQuPyVerif.FloatGrid.steps_on_grid_binary64 s e dt m hdt hm η hη hclose
+  refine ⟨?_, ?_, ?_⟩
+  · rw [num_step_tempo, h]; simp
+  · rw [num_step_mft, h]; simp
+  · rw [pt_length, h]
+
+/-- off-grid ends: when the exact quotient `q = (e-s)/dt ≥ 0` is at least `δ` away from every
+    integer (δ large against the 1e-9 tolerance) the count is `⌊q⌋`,
+    "the number of whole steps that fit". -/
+theorem grid_general_floor (s e dt : Rat) (hdt : 0 < dt)
+    (q : Rat) (hq : q = (e - s) / dt) (hq0 : 0 ≤ q)
+    (δ : Rat) (hδ : 2 * (OQuPyVerif.FloatGrid.tolQ + 4 * (1 / 2 ^ 53)) * (q + 1) ≤ δ)
+    (hfar : ∀ n : Int, δ ≤ |q - n|) : get_number_of_steps s e dt = ⌊q⌋ :=
+  OQuPyVerif.FloatGrid.steps_off_grid_binary64 s e dt hdt q hq hq0 δ hδ hfar
+
+/-- non-vacuity of the off-grid theorem: end 0.35 with dt 0.1 from 0 gives 3 steps -/
+example : get_number_of_steps 0 (7/20) (1/10) = 3 := by decide +kernel
+
+/-- labels increase with the step (dt ≥ 0), so the recorded grid is sorted -/
+theorem labels_monotone (s dt : Rat) (hdt : 0 ≤ dt) (a b : Int) (h : a ≤ b) :
+    gridTime s dt a ≤ gridTime s dt b := OQuPyVerif.FloatGrid.gridTime_mono s dt hdt a b h
 
 /-- Finite lattice, exhaustive in the kernel (quick tier: 4 rows × 1001 end literals; the
     thorough tier checks 48 rows, see Props/C13Lattice.lean): for these decimal literals the
@@ -122,5 +167,13 @@ theorem compute_history_grid (numStep : Int → Rat → Int) (time : Int → Rat
 example :
     (computeAll (tempo_num_step 0 (lit 1 1)) (tempo_time 0 (lit 1 1))
       [lit 3 1, lit 2 1, lit 5 1]).dyn.times.length = 6 := by decide +kernel
+
+/-- … hence `compute_history_grid` applies to the generated Tempo functions outright:
+    after any non-empty history of `compute` calls, `Tempo`'s dynamics are exactly the grid. -/
+theorem tempo_history_grid (s dt : Rat) (hdt : 0 ≤ dt) (e : Rat) (es : List Rat) :
+    let st := computeAll (tempo_num_step s dt) (tempo_time s dt) (e :: es)
+    st.dyn.pairs = gridPairs (gridTime s dt) (reach (tempo_num_step s dt) (e :: es)) :=
+  (compute_history_grid (tempo_num_step s dt) (tempo_time s dt)
+    (fun a b h => labels_monotone s dt hdt a b h) e es).2
 
 end OQuPyVerif.Props.C13
